@@ -138,6 +138,10 @@ class RealRun(object):
             self.listeners[l] = self.Listener(l)
         return self.listeners[l]
 
+    def sender(self, ident):
+        # the sender is one of the listeners (so a listener also receives messages it sent itself), or nobody
+        return self.listener(ident % 3) if ident % 4 else None
+
     def call(self, l, h, message):
         self.ncalls += 1
         if self.depth >= REAL_GUARD or self.ncalls > REAL_CALLS:
@@ -164,10 +168,10 @@ class RealRun(object):
             if k == 'B':
                 m = self.kept.get((a[1], a[2]))
                 if m is None:
-                    m = self.kept[(a[1], a[2])] = self.classes[a[2]](None, tag=a[1])
+                    m = self.kept[(a[1], a[2])] = self.classes[a[2]](self.sender(a[1]), tag=a[1])
                 hub.broadcast(m)
             elif k == 'Bf':
-                m = self.classes[a[2]](None, tag=a[1])      # no attribute is added to the message: it must look like any other
+                m = self.classes[a[2]](self.sender(a[1]), tag=a[1])      # no attribute is added: it must look like any other
                 self.fresh.append(m)
                 self.fresh_ids.add(id(m))
                 hub.broadcast(m)
@@ -546,7 +550,7 @@ def rand_script(rng, size, depth, ncls, nlst, nh, top):
 
 def rand_sub(rng, ncls, nlst, nh):
     return ('S', rng.randrange(nlst), rng.randrange(ncls), rng.randrange(nh),
-            rng.choice([0, 0, 0, 0, 1, 2, 3]), rng.choice([10, 10, 10, 5, 20, 1, -3]))
+            rng.choice([0, 0, 0, 0, 1, 2, 3]), rng.choice([10, 10, 10, 5, 20, 1, -3, 0]))
 
 
 TREES = [[0, 0, 1, 0], [0, 0, 0, 1, 1], [0, 0, 1, 2], [0, 1, 0, 1], [0, 0], [0, 0, 1, 1, 3, 0]]
@@ -841,7 +845,8 @@ def stream_exhaustive(R):
                 if len(bc) != len(set(bc)):
                     # a class broadcast twice: also as the SAME message object twice, and as two equal-looking objects
                     cases.append({'parents': TREE, 'handlers': EX_HANDLERS, 'script': setup + renumber(s, 1, 'class', 'B')})
-                    cases.append({'parents': TREE, 'handlers': EX_HANDLERS, 'script': setup + renumber(s, 1, 'class', 'Bf')})
+                    if not R.quick() or sname in ('plain', 'reentrant'):
+                        cases.append({'parents': TREE, 'handlers': EX_HANDLERS, 'script': setup + renumber(s, 1, 'class', 'Bf')})
         ncases += len(cases)
         total += process(R, 'exhaustive/' + sname, cases)
     R.sample(case_json({'parents': TREE, 'handlers': EX_HANDLERS,
@@ -855,7 +860,7 @@ def stream_exhaustive(R):
 
 
 def stream_random(R):
-    n = R.pick(6000, 80000)
+    n = R.pick(4000, 60000)
     cases = []
     for i in range(n):
         cases.append(rand_case(R.subrng('rand', i), big=(i % 3 == 0)))
@@ -871,7 +876,7 @@ def stream_find_handlers(R):
     """Hub._find_handlers alone on random subscription tables: who, most specific class, filter, priority order, ties"""
     from glue.core.hub import Hub
     import functools
-    n = R.pick(1500, 8000)
+    n = R.pick(1000, 6000)
     lines, expect, keys = [], [], []
     bad = 0
     for i in range(n):
